@@ -97,7 +97,7 @@ def main():
         f.write("| kind | change | property | result | first failing sub-check |\n|---|---|---|---|---|\n")
         for r in rows: f.write("| "+" | ".join(str(x).replace("|","\\|") for x in r)+" |\n")
     missed=[r for r in rows if r[0]!="benign" and r[3].startswith("silent") and "[not labelled]" not in r[3]]
-    alarms=[r for r in rows if r[0]=="benign" and not r[3].startswith("silent")]
+    alarms=[r for r in rows if r[0]=="benign" and r[3].startswith(("DETECTED","infra","exit"))]
     print(f"\n{len(rows)} rows; missed: {len(missed)}; false alarms on benign changes: {len(alarms)}")
     for r in missed+alarms: print("  ",r)
 if __name__=="__main__": main()
